@@ -198,7 +198,9 @@ func (ab *cmdsPair) Equal(ai, bi int) bool {
 // or return name of new command, if it replaces old command.
 func (s *State) diffCmds(al, bl []*cmd, key keyFunc) string {
 	// Command on device was already equalized with other command from Netspoc.
-	if len(al) > 0 && al[0].needed {
+	// This doesn't apply to a list of anchor commands, where some command
+	// may have been marked as needed for an unmanaged interface.
+	if len(al) > 0 && al[0].needed && !al[0].typ.anchor {
 		if len(bl) > 0 {
 			s.addCmds(bl)
 			return bl[0].name
